@@ -85,3 +85,11 @@ verif_harness! { c17_inflight_collision, 10, {
     std::mem::forget((a, b, c, n1, n2));
     std::mem::forget(m);
 } }
+
+// native replay of counterexamples: bin/check writes the unit test Kani generated (`--concrete-playback=print`) into the
+// included file and runs `cargo kani playback`; the file is empty otherwise.
+#[allow(unused_imports, dead_code)]
+mod playback {
+    use super::*;
+    include!("/verif/harness/playback/foyer-memory/inflight__verif_kani.rs");
+}
